@@ -78,7 +78,8 @@ func (f *graphFE) snapshot() []string {
 	sort.Strings(out)
 	return out
 }
-func (f *graphFE) pendingInputs() map[string]int { return nil }
+func (f *graphFE) pendingInputs() map[string]int  { return nil }
+func (f *graphFE) pendingStatics() map[string]int { return nil }
 
 func (f *chainFE) snapshot() []string {
 	s := f.c.VerifC20Snapshot()
@@ -96,7 +97,8 @@ func (f *chainFE) snapshot() []string {
 	sort.Strings(out)
 	return out
 }
-func (f *chainFE) pendingInputs() map[string]int { return nil }
+func (f *chainFE) pendingInputs() map[string]int  { return nil }
+func (f *chainFE) pendingStatics() map[string]int { return nil }
 
 func (f *wfFE) snapshot() []string {
 	s := f.w.VerifC20Snapshot()
@@ -106,7 +108,7 @@ func (f *wfFE) snapshot() []string {
 		if n.Whole {
 			m = "*"
 		}
-		out = append(out, fmt.Sprintf("wn:%s#%d:%s", n.Key, n.NPending, m))
+		out = append(out, fmt.Sprintf("wn:%s#%d:%s:%s", n.Key, n.NPending, m, strings.Join(n.Static, ",")))
 	}
 	out = append(out, fmt.Sprintf("wb:%d", s.NBranches))
 	sort.Strings(out)
@@ -116,6 +118,13 @@ func (f *wfFE) pendingInputs() map[string]int {
 	m := map[string]int{}
 	for _, n := range f.w.VerifC20Snapshot().Nodes {
 		m[n.Key] = n.NPending
+	}
+	return m
+}
+func (f *wfFE) pendingStatics() map[string]int {
+	m := map[string]int{}
+	for _, n := range f.w.VerifC20Snapshot().Nodes {
+		m[n.Key] = len(n.Static)
 	}
 	return m
 }
